@@ -44,7 +44,8 @@ def fixtures():
         # CC0 is a plain component; CC1 is container-like (an inventory: empty -> len 0 -> falsy); CC2 is a switch that is currently off
         _T = [type('CC0', (core.Component,), {'__slots__': ()}),
               type('CC1', (core.Component,), {'__slots__': (), '__len__': lambda self: 0}),
-              type('CC2', (core.Component,), {'__slots__': (), '__bool__': lambda self: False})]
+              type('CC2', (core.Component,), {'__slots__': (), '__bool__': lambda self: False}),
+              type('CC3', (core.Component,), {'__slots__': ()}), type('CC4', (core.Component,), {'__slots__': ()})]
     return core, envs, _T
 
 
@@ -148,6 +149,11 @@ def case_history(ctx, case):
                 else:
                     check(K.get_class_component(t, True) is c, 'strict getter returned the wrong component', **detail)
             check(K.has_class_component(*[t for t in T if t in r['comps']]) is True, 'has_class_component(all attached) is not True', **detail)
+            # templates of two types: true exactly when both are attached to THIS class now
+            t1_, t2_ = rng.sample(T, 2)
+            want_ = t1_ in r['comps'] and t2_ in r['comps']
+            ctx.count('two_type_class_queries')
+            check(K.has_class_component(t1_, t2_) is want_, f'{K.__name__}.has_class_component({t1_.__name__}, {t2_.__name__}) is not {want_}', **detail)
         for obj, tag, comps in instances:
             detail = dict(after=what, instance=type(obj).__name__, trace=trace[-10:])
             check(obj.tag == tag, f'instance of {type(obj).__name__} has tag {obj.tag!r}, expected {tag!r}', **detail)
@@ -165,6 +171,7 @@ def case_history(ctx, case):
         for _ in range(rng.randint(3, 7)):
             new_class()
         observe('hierarchy creation')
+        look_p = rng.choice([1.0, 1.0, 0.5, 0.2])
         for _ in range(rng.randint(20, 50)):
             x = rng.random()
             K = rng.choice(classes)
@@ -199,6 +206,23 @@ def case_history(ctx, case):
                                   K.remove_class_component, t, exact=True)
                     ctx.count('rejected_absent_detach')
                     trace.append(('detach!', K.__name__, t.__name__))
+            elif x < 0.42 and len(ref[K]['comps']) >= 2:
+                # the class's components are rearranged in one go (a reload of its configuration): all detached, then most of them attached
+                # again in another order, one of them possibly swapped for a type it did not have
+                old_ = list(ref[K]['comps'].items())
+                for t_, _ in old_:
+                    K.remove_class_component(t_)
+                keep_ = rng.sample(old_, len(old_))
+                spare_ = [t_ for t_ in T if t_ not in ref[K]['comps']]
+                if spare_ and rng.random() < 0.7:
+                    t_new = rng.choice(spare_)
+                    keep_[rng.randrange(len(keep_))] = (t_new, t_new(K, model))
+                ref[K]['comps'] = {}
+                for t_, c_ in keep_:
+                    K.add_class_component(c_)
+                    ref[K]['comps'][t_] = c_
+                ctx.count('class_components_rearranged_in_one_go')
+                trace.append(('rearrange', K.__name__, [t_.__name__ for t_, _ in keep_]))
             elif x < 0.55:
                 v = rng.choice([0, 1, 2, 3, 7, -1])
                 K.tag = v
@@ -298,7 +322,11 @@ def case_history(ctx, case):
             else:
                 new_class()
                 ctx.count('mid_history_classes')
-            observe(trace[-1] if trace else 'start')
+            if rng.random() < look_p:
+                observe(trace[-1] if trace else 'start')
+            else:
+                ctx.count('operations_after_which_nobody_looked')       # several writes pile up between two looks at the classes
+        observe('end of history')
     finally:
         for K in lib:       # restore the process-global classes through the public API
             for t in T:
